@@ -1,5 +1,5 @@
 """C02 - the parse result is the bottom-up evaluation of the derivation tree."""
-import families, report, vlib, kernel, c02_step, common_parse as cp
+import families, report, vlib, kernel, c02_step, buf_kernel, common_parse as cp
 
 def run(tier, seed):
     R = report.Run('C02', tier, seed); cases = []
@@ -8,9 +8,11 @@ def run(tier, seed):
     if tier == 'quick':
         sel = [(d[n], [3]) for n in ('e123', 'tconv', 'etf', 'rrece', 'interl', 'nullrun', 'mutual')] + [(d['lrec'], [4])] + [(g, [3]) for g in families.g_rand(seed + 100, 2)]
     else:
-        sel = [(g, [l for l in (1, 2, 3, 4, 5) if (g.nt + 1) ** l <= 4000]) for g in d.values() if g.name not in families.KNOWN_DEFECT_UNITS] + [(g, [2, 3, 4]) for g in families.g_rand(seed + 100, 12)]
+        sel = [(g, [l for l in (1, 2, 3, 4, 5) if (g.nt + 1) ** l <= 4000]) for g in d.values() if g.name not in families.KNOWN_DEFECT_UNITS | families.SPECIAL_VARIANT_UNITS] + [(g, [2, 3, 4]) for g in families.g_rand(seed + 100, 12)]
     # (1) inductive step: one reduce of the real driver from an ARBITRARY stack height (covers inputs of any length)
     kernel.run_kernels(R, c02_step.kernels(wd, ('etf', 'e123') if tier == 'quick' else ('etf', 'e123', 'nullrun', 'interl', 'chain')))
+    # (1b) the lexeme a term functor is applied to: get_view of the buffer kinds (the string_view_buffer parse path itself is out of reach: std::vector-backed stacks)
+    kernel.run_kernels(R, buf_kernel.kernels(wd))
     # (2) exact-length queries: whole parses against the reference evaluation
     cp.run_parse_property('C02', tier, seed, sel, ['accept', 'value', 'positions'], '',
         cp.STD_OUTSIDE + ['value types other than unsigned / term_value<unsigned>', 'discards by error recovery (C08)'],
